@@ -515,6 +515,22 @@ def k_rules(p: Project, rep: Report):
                 cutters.append(text(x)[:70])
     rep.check("K-R3", "request_profile:cache-key-components-whole", not cutters, f"{cutters[0] if cutters else ''} replaces everything after the LAST DOT of the name it is applied to: an ORG/FID containing a dot (firstbank.com-101) is cut short, so different servers share one cache entry" if cutters else "", loc(p, where))
 
+    # ... and un-merged: no many-to-one rewriting of a component (character substitution, case folding, clipping) -
+    # two different ORG/FID values must not arrive at one file name
+    lossy = []
+    keyparts = ("self.org", "self.fid", "self.url")
+    for ct, ce in cache_exprs.items():
+        for x in ast.walk(ce):
+            if isinstance(x, ast.Call):
+                fnm = (dotted(x.func) or text(x.func)).split(".")[-1]
+                operands = list(x.args) + [k_.value for k_ in x.keywords] + ([x.func.value] if isinstance(x.func, ast.Attribute) else [])
+                touches = any(any(a_ in text(o_) for a_ in keyparts) for o_ in operands)
+                if touches and fnm in ("sub", "subn", "replace", "translate", "lower", "upper", "casefold", "title", "capitalize", "strip", "lstrip", "rstrip", "expandtabs", "normalize", "slugify", "basename", "split", "rsplit", "partition", "rpartition"):
+                    lossy.append(text(x)[:80])
+            if isinstance(x, ast.Subscript) and isinstance(x.slice, ast.Slice) and any(a_ in text(x.value) for a_ in keyparts):
+                lossy.append(text(x)[:80])
+    rep.check("K-R3", "request_profile:cache-key-components-unmerged", not lossy, f"{lossy[0] if lossy else ''} maps different ORG/FID values to one name (e.g. 'A/B' and 'A_B', 'Bank' and 'bank'): the two servers share one cache entry, and a profile cached from one is used for the other" if lossy else "", loc(p, where))
+
     # ------------------------------------------------------------------ K-R4
     rep.rule("K-R4", "ask with the date you hold: the DTPROFUP passed to _request_profile is the one parsed from the cached profile when a cache file was read and None otherwise; _request_profile sends that date (1990-01-01 only when None)")
     for n, c, _ in nets:
